@@ -199,8 +199,14 @@ func formatValue(value interface{}, module *parser.Frugal) template.HTML {
 		display := "{ "
 		prefix := ""
 		for _, keyValue := range v {
+			// Keys of constant maps may be of any base type, not only strings.
+			key := keyValue.Key
+			switch key.(type) {
+			case string, parser.Identifier:
+				key = keyValue.KeyToString()
+			}
 			display += fmt.Sprintf("%s%s = %s", prefix,
-				formatValue(keyValue.KeyToString(), module), formatValue(keyValue.Value, module))
+				formatValue(key, module), formatValue(keyValue.Value, module))
 			prefix = ", "
 		}
 		display += " }"
